@@ -612,7 +612,7 @@ def run(ctx):
         armature_scale_range=rg["armature"], mass_scale_range=rg["mass"],
         torso_offset_range=rg["torso_offset"], lin_vel_x_range=(0.3, 1.2),
         lin_vel_y_range=(-0.2, 0.4), ang_vel_yaw_range=(-2.0, -0.5),
-        gait_frequency_range=(0.5, 3.0), zero_command_probability=0.5,
+        gait_frequency_range=(1.3, 1.45), zero_command_probability=0.5,   # (1/dt)/lo is not an integer
         control_frequency_hz=25.0)
     _episode_models(ctx, "locomotion", custom, "custom", ctx.budget(100, 1000))
     if not ctx.quick:
